@@ -128,7 +128,13 @@ def extra_quick():
             [U('gaussian', 2, 1, sel=[[0, 1], [1, 0]])],
             [U('lognormal_nc', 2, 2, sel=[[1, 1], [0, 1]]), U('pooled')],
             [U('gaussian', 2), U('lognormal')],
-            [U('lognormal_nc', 2), U('pooled'), U('gaussian')]]
+            [U('lognormal_nc', 2), U('pooled'), U('gaussian')],
+            # several covariate-dependent sub-models, each with its own
+            # covariate columns (the later ones non-centred / pooled)
+            [U('gaussian', 1, 1), U('lognormal_nc', 1, 1)],
+            [U('lognormal', 1, 1), U('gaussian_nc', 1, 2)],
+            [U('gaussian_nc', 1, 2), U('pooled', 1, 1)],
+            [U('pooled', 1, 1), U('gaussian_nc', 1, 1), U('lognormal_nc', 1, 1)]]
 
 
 def jobs(tier):
